@@ -81,6 +81,14 @@ func Run(cfg Config) *hx.Result {
 	reqs = append(reqs, &request{idx: len(reqs), kind: "get", mode: "shared", shared: nilStatusShared},
 		&request{idx: len(reqs) + 1, kind: "create", mode: "shared", shared: nilStatusShared})
 	runSerial(r, cfg, reqs)
+	// replay: a serial case (direct-oracle op `server-serial …`, correspondence op `c17serve …`) is
+	// deterministic and has just been re-run with the whole serial corpus; a concurrent case or a
+	// race report cannot be replayed step by step — the scheduler is not ours — so the concurrent
+	// part is simply run again in full.
+	if len(cfg.Replay) > 0 && (strings.HasPrefix(cfg.Replay[0], "server-serial") || strings.HasPrefix(cfg.Replay[0], "c17serve")) {
+		r.Count("replay:serial-only")
+		return r
+	}
 
 	// ---- concurrent part: children
 	procs := []int{1, 2, 4, 8}
